@@ -15,6 +15,9 @@ import (
 
 func genLoadIns(tp *simrt.Tape, M uint64, is88 bool) ref.Ins {
 	field := func(label string) uint64 {
+		if len(fieldHints) > 0 && tp.Draw(label+".hint", 5) == 0 {
+			return fieldHints[tp.Draw(label+".hintval", len(fieldHints))] % M
+		}
 		switch tp.Draw(label+".kind", 8) {
 		case 0:
 			return 0
@@ -79,6 +82,7 @@ func genLoadWarrior(tp *simrt.Tape, M uint64, is88 bool, maxLen int) ref.Warrior
 }
 
 func genLoadConfig(tp *simrt.Tape) gp.SimulatorConfig {
+	fieldHints = fieldHints[:0]
 	sizes := []int{8000, 80, 800, 8192, 3, 5, 16, 17, 256, 55440, 1 << 20}
 	m := sizes[tp.Draw("lc.size", len(sizes))]
 	mode := []gp.SimulatorMode{gp.ICWS94, gp.ICWS88, gp.NOP94}[tp.Draw("lc.mode", 3)]
@@ -120,6 +124,8 @@ func renderLoad(tp *simrt.Tape, res *Result, w ref.Warrior, M uint64, is88 bool)
 	mixed := flag("mixed-case-letters", 4)
 	commaBlanks := flag("blanks-around-commas", 3)
 	trailing := flag("trailing-comment", 4)
+	semis := flag("comment-containing-semicolons", 5)
+	longLine := flag("line-longer-than-4096-bytes", 12)
 	noFinalNL := flag("no-final-newline", 3)
 	var out []string
 	if meta {
@@ -152,6 +158,19 @@ func renderLoad(tp *simrt.Tape, res *Result, w ref.Warrior, M uint64, is88 bool)
 		}
 		if trailing && tp.Draw("rl.trailingline", 2) == 0 {
 			ln += " ; note"
+		}
+		if semis && tp.Draw("rl.semisline", 2) == 0 {
+			ln += []string{" ; copy ; the imp", " ;; step", " ; a;b;c ;"}[tp.Draw("rl.semikind", 3)]
+		}
+		if longLine && tp.Draw("rl.longline", 3) == 0 {
+			switch tp.Draw("rl.longkind", 3) {
+			case 0:
+				ln += strings.Repeat(" ", 4090+tp.Draw("rl.longpad", 3000))
+			case 1:
+				ln += " ;" + strings.Repeat("-", 4090+tp.Draw("rl.longpad", 3000))
+			default:
+				out = append(out, ";strategy "+strings.Repeat("=", 4090+tp.Draw("rl.longpad", 70000)))
+			}
 		}
 		if comments && tp.Draw("rl.commentbefore", 3) == 0 {
 			out = append(out, "; a comment line")
@@ -300,7 +319,7 @@ func caseRoundTrip(t *testing.T, tp *simrt.Tape, c *Ctx) (res Result) {
 
 // ---- C10: corrupted load files ---------------------------------------------------
 
-var junkNumbers = []string{"-1", "99999999999", "-99999999999", "9223372036854775808", "0x10", "1e3", "1.5", "+", "-", "abc", "", "٣", "1_000", " 7", "00", "-0", "+5", "2147483648", "4294967296"}
+var junkNumbers = []string{"-9223372036854775808", "9223372036854775807", "-9223372036854775807", "-1", "99999999999", "-99999999999", "9223372036854775808", "0x10", "1e3", "1.5", "+", "-", "abc", "", "٣", "1_000", " 7", "00", "-0", "+5", "2147483648", "4294967296"}
 var junkOps = []string{"XYZ", "MOVE", "MOV.", ".I", "MOV.Q", "MOV.IX", "DAT.F.F", "LDP", "STP", "mov.i", "ORG", "END", "FOR", "EQU", "org", "end", "Ｍov", "MOV.I;"}
 
 func corruptLoad(tp *simrt.Tape, res *Result, lines []string, ncode int, M uint64) ([]string, []string) {
@@ -312,7 +331,7 @@ func corruptLoad(tp *simrt.Tape, res *Result, lines []string, ncode int, M uint6
 		}
 		i := tp.Draw("cl.line", len(lines))
 		f := strings.Fields(strings.ReplaceAll(lines[i], ",", " , "))
-		kind := tp.Draw("cl.kind", 14)
+		kind := tp.Draw("cl.kind", 15)
 		name := ""
 		switch kind {
 		case 0:
@@ -390,6 +409,19 @@ func corruptLoad(tp *simrt.Tape, res *Result, lines []string, ncode int, M uint6
 				}
 			}
 			lines[i] = strings.Join(f, " ")
+		case 13:
+			if tp.Draw("cl.longline", 12) == 0 {
+				// a line longer than any reasonable buffer (64 KiB and more)
+				name = "very-long-line"
+				long := strings.Repeat("x", 66000+tp.Draw("cl.longlen", 4000))
+				if tp.Draw("cl.longkind", 2) == 0 {
+					lines = append(lines[:i+1], append([]string{"DAT.F # 0, # 0 ; " + long}, lines[i+1:]...)...)
+				} else {
+					lines = append(lines[:i+1], append([]string{long}, lines[i+1:]...)...)
+				}
+				break
+			}
+			fallthrough
 		default:
 			name = "garbage-line"
 			lines = append(lines[:i], append([]string{[]string{"~", "mov", "1 2 3 4 5", "a b c d e", ", , , , ,", "MOV.I $ 0 $ 1 ,", "DAT.F # 0, # 0 extra"}[tp.Draw("cl.garbage", 7)]}, lines[i:]...)...)
